@@ -1,4 +1,6 @@
 SPECIFICATION Spec
-CONSTANT MaxOps = 3
+CONSTANTS
+ MaxOps = 3
+ Sweep = FALSE
 CONSTRAINT Emit
 CHECK_DEADLOCK FALSE
